@@ -18,13 +18,32 @@ def frag_formula(rng, nv, depth, P):
     return ok(g.formula(depth))
 
 
+def ramp(rng, n):
+    """a trace of runs of rising / falling values"""
+    col, v = [], rng.randint(-4, 6)
+    while len(col) < n:
+        step = rng.choice([1, 1, -1, -1, 0])
+        for _ in range(rng.randint(2, 5)):
+            v = max(-9, min(9, v + step))
+            col.append(v)
+        if rng.random() < 0.4:
+            v = rng.randint(-6, 8)
+    return col[:n]
+
+
+UNIT_PAIRS = [(x, y) for x in ('s', 'ms', 'us') for y in ('s', 'ms', 'us') if x != y]
+
+
 class C19(Check):
     PID = 'C19'
     RULE = ('seeded random formulas of the fragment (arithmetic, comparisons, Boolean, once/historically bounded or not, bounded eventually/always) with bounds '
             'that are multiples of the sampling period P in {0.5 s, 1 s}; a discrete trace of n <= 12 samples is evaluated by the discrete-time monitor and, as '
             'a step signal changing only at multiples of P, by the dense-time monitor; for every k with k + horizon < n the dense value at k*P must equal the '
             'discrete value at k; both are also compared with the models (rho, Dn); non-trivial = temporal operator and non-empty settled region; '
-            'a quarter of the cases with bounded operators write the bounds with explicit units (both ends / one end only, s / ms / us); plus sqrt above a bounded future operator on traces of perfect squares; plus decimal sampling periods (0.1 s, 0.2 s, 0.01 s: time-stamps k*P and bounds that are not binary fractions); plus bounded operators with windows of 3-6 periods over ramp-shaped traces of 8-18 samples; distinct by (formula, trace, P)')
+            'a quarter of the cases with bounded operators write the bounds with explicit units (both ends / one end only, s / ms / us); plus sqrt above a bounded future operator on traces of perfect squares; plus decimal sampling periods (0.1 s, 0.2 s, 0.01 s: time-stamps k*P and bounds that are not binary fractions); plus bounded operators with windows of 3-6 periods over ramp-shaped traces of 8-18 samples; '
+            'plus bounds whose two ends carry DIFFERENT explicit units ([1s:3000ms], [0us,1500ms], [500ms:2s]: each end is converted with its own unit): every ordered pair of s / ms / us on '
+            'each of once / historically / eventually / always with begin = 0 and begin > 0 directly over a threshold on a ramp-shaped trace of 12 samples, a third of the wide-window cases and a quarter of the unit-notation cases of the random stream '
+            '(feature bounds_mixed_units); distinct by (formula, trace, P, unit notation)')
 
     def gen_cases(self, rng, tier):
         cases = []
@@ -40,7 +59,7 @@ class C19(Check):
             c = {'f': f, 'n': n, 'nv': nv, 'cols': fml.gen_trace(rng, nv, n), 'P': P}
             if (fml.ops(f) & (fml.TUN | fml.TBIN)) and rng.random() < 0.25:
                 # the bounds in another unit notation (explicit units on both ends or on one end only; the default unit stays s)
-                c['unit_style'] = [rng.choice(['both', 'begin', 'end']), rng.randrange(1 << 30)]
+                c['unit_style'] = [rng.choice(['both', 'begin', 'end', 'mixed']), rng.randrange(1 << 30)]
             cases.append(c)
         # decimal sampling periods (0.1 s, 0.2 s, 0.01 s): the time-stamps k*P and the bounds are not binary fractions
         X1 = ('pred', 'geq', ('var', 0), ('const', 1))
@@ -80,15 +99,19 @@ class C19(Check):
             if rng.random() < 0.3:
                 f = (rng.choice(['evt', 'alwt', 'oncet', 'histt']), 0, rng.randint(1, 2), f)
             n = rng.randint(8, 18)
-            col, v = [], rng.randint(-4, 6)
-            while len(col) < n:
-                step = rng.choice([1, 1, -1, -1, 0])
-                for _ in range(rng.randint(2, 5)):
-                    v = max(-9, min(9, v + step))
-                    col.append(v)
-                if rng.random() < 0.4:
-                    v = rng.randint(-6, 8)
-            cases.append({'f': f, 'n': n, 'nv': 1, 'cols': [col[:n]], 'P': P})
+            c = {'f': f, 'n': n, 'nv': 1, 'cols': [ramp(rng, n)], 'P': P}
+            if rng.random() < 0.34:
+                # the two ends of every window with different explicit units
+                c['unit_style'] = ['mixed', rng.randrange(1 << 30)]
+            cases.append(c)
+        # the two ends of a window with different explicit units, every ordered pair of units, on every bounded operator of the fragment,
+        # window [0, 2 periods] and [1, 3 periods], the operator directly over a threshold on a ramp (nothing masks its value)
+        for op in ['oncet', 'histt', 'evt', 'alwt']:
+            for i, (ub, ue) in enumerate(UNIT_PAIRS):
+                for b in (0, 1):
+                    X = ('pred', 'geq' if (i + b) % 2 else 'leq', ('var', 0), ('const', rng.randint(0, 3)))
+                    cases.append({'f': (op, b, b + 2, X), 'n': 12, 'nv': 1, 'cols': [ramp(rng, 12)], 'P': [2, 4][(i + b) % 2],
+                                  'unit_style': ['mixed', rng.randrange(1 << 30), [ub, ue]]})
         return cases
 
     def dense_f(self, c):
@@ -108,9 +131,10 @@ class C19(Check):
         if c.get('unit_style'):
             import random
             from harness.densex import dense_bound
-            style, seed = c['unit_style']
+            style, seed = c['unit_style'][:2]
+            units = c['unit_style'][2] if len(c['unit_style']) > 2 else None
             r = random.Random(seed)
-            return 'out = ' + fml.to_text(c['f'], lambda b, e: dense_bound(r, P * b, P * e, 's', style))
+            return 'out = ' + fml.to_text(c['f'], lambda b, e: dense_bound(r, P * b, P * e, 's', style, units))
         return 'out = ' + fml.to_text(c['f'], lambda b, e: dense.bound_text(P * b, P * e))
 
     def model_lines(self, c):
@@ -171,6 +195,17 @@ class C19(Check):
         c['_settled'] = len(settled)
         return 'ok', None
 
+    def features(self, c):
+        fs = Check.features(self, c)
+        if c.get('unit_style') and (fml.ops(c['f']) & (fml.TUN | fml.TBIN)):
+            import re
+            fs = fs + ['bounds_with_units']
+            for m in re.finditer(r'\[[-0-9.e]+([a-z]*)[,:][-0-9.e]+([a-z]*)\]', self.spec_text(c)):
+                if m.group(1) and m.group(2) and m.group(1) != m.group(2):
+                    fs = fs + ['bounds_mixed_units']
+                    break
+        return fs
+
     def signature(self, c, detail):
         sig = Check.signature(self, c, detail)
         if c.get('dec_ms'):
@@ -182,13 +217,16 @@ class C19(Check):
     def still_fails(self, model, c, shape=None):
         if c.get('dec_ms') or c.get('partial_pad'):
             return False, None
+        if not fml.fvars(c['f']):
+            # outside the generated class (every case has a variable): evaluate() of a dense-time specification without any signal fails by itself
+            return False, None
         return Check.still_fails(self, model, c, shape)
 
     def nontrivial(self, c):
         return c.get('_settled', 0) > 0 and bool(fml.ops(c['f']) & {'once', 'hist', 'oncet', 'histt', 'evt', 'alwt'})
 
     def key(self, c):
-        return json.dumps([fml.to_sx(c['f']), c['cols'], c['P'], c.get('dec_ms')])
+        return json.dumps([fml.to_sx(c['f']), c['cols'], c['P'], c.get('dec_ms'), self.spec_text(c) if c.get('unit_style') else None])
 
     def describe(self, c):
         return {'spec': self.spec_text(c), 'P_s': c['P'] * dense.SCALE, 'trace': c['cols']}
